@@ -1,7 +1,7 @@
 #!/usr/bin/env python3
 """Regenerate /verif/lean/lakefile.toml: one core-only driver exe per property directory that has Main.lean."""
-import os, re
-root = os.path.join(os.path.dirname(os.path.abspath(__file__)), '..', 'lean')
+import os, re, sys
+root = sys.argv[1] if len(sys.argv) > 1 else os.path.join(os.path.dirname(os.path.abspath(__file__)), '..', 'lean')
 out = ['name = "BfeVerif"', 'version = "0.1.0"', 'defaultTargets = ["BfeVerif"]', '',
        '[[lean_lib]]', 'name = "BfeVerif"', 'globs = ["BfeVerif.+"]', '']
 for d in sorted(os.listdir(os.path.join(root, 'BfeVerif'))):
